@@ -405,6 +405,73 @@ def gen_wait_spec(rng: random.Random, retried: bool = False) -> dict:
     return {"steps": steps, "externals": ext}
 
 
+def gen_wait_multi_spec(rng: random.Random) -> dict:
+    """several waits of ONE step for the same event type, default (auto-generated) waiter ids, requirements with the same
+    key and different VALUES: what tells these waits apart is the requirement value alone.
+
+    * seq: one invocation asks in sequence (`Approval(user=alice)` then `Approval(user=bob)`): every wait has to be
+      announced, has to suspend, and has to return the reply that satisfies ITS requirement -- the replay runs through
+      the earlier, already answered waits again;
+    * fan: one invocation per fanned-out item, suspended at once, each waiting for the reply correlated to its item
+      (`requirements={"k": ev.k}`), optionally followed by a second correlated wait (`k + 3`);
+    replies come from outside in any order: matching, duplicates, non-matching values, other types, early and late.
+    Requirement values stay within 0..5 (harness/engine/enc.py numbers the auto ids of that range in string order)."""
+    wty = rng.choice([3, 11])
+    timeout = rng.choice([None, None, None, 5, 20])
+    wevs = rng.choice([None, 2, 2])
+    mode = rng.choice(["swallow", "raise"])
+    wanted: list[int] = []
+    if rng.random() < 0.5:
+        vals = rng.sample([0, 1, 2, 3, 4, 5], rng.choice([2, 2, 3]))
+        sc: list = [["gate"]] if rng.random() < 0.3 else []
+        for i, v in enumerate(vals):
+            sc.append(["wait", wty, f"auto:{v}", timeout, None, wevs, mode])
+            if rng.random() < 0.25 and i + 1 < len(vals):
+                sc.append(["gate"])
+        r = rng.choice(["stop", "stop", "6", "none"])
+        sc.append(["ret", r, "waited"] if r == "stop" else ["ret", r])
+        waiter = {"name": "s02", "accepts": [5], "nw": rng.randint(1, 2), "retry": None, "script": sc}
+        start = {"name": "s00", "accepts": [0], "nw": 1, "retry": None,
+                 "script": [["send", 5, rng.choice([None, "s02"]), rng.choice([None, 1])], ["ret", "none"]]}
+        wanted = list(vals)
+    else:
+        ks = rng.sample([1, 2], 2) if rng.random() < 0.7 else rng.sample([0, 1, 2], 3)
+        two = max(ks) <= 2 and rng.random() < 0.5
+        sc = [["gate"]] if rng.random() < 0.3 else []
+        sc.append(["wait", wty, "own", timeout, None, wevs, mode])
+        if two:
+            if rng.random() < 0.3:
+                sc.append(["gate"])
+            sc.append(["wait", wty, "own+3", timeout, None, wevs, mode])
+        sc.append(["ret", rng.choice(["6", "6", "none"])])
+        waiter = {"name": "s02", "accepts": [5], "nw": rng.randint(2, 3), "retry": None, "script": sc}
+        start = {"name": "s00", "accepts": [0], "nw": 1, "retry": None,
+                 "script": [["send", 5, rng.choice([None, "s02"]), k] for k in ks] + [["ret", "none"]]}
+        wanted = list(ks) + ([k + 3 for k in ks] if two else [])
+    other = {"name": "s04", "accepts": [6], "nw": 1, "retry": None, "script": [["ret", rng.choice(["none", "none", "stop"])]]}
+    steps = [start, waiter, other]
+    rng.shuffle(steps)
+    ext = []
+    replies = list(wanted)
+    in_order = rng.random() < 0.6  # replies mostly come after the question was asked, in the order of the questions
+    if not in_order:
+        rng.shuffle(replies)
+    if rng.random() < 0.25 and replies:
+        replies.pop(rng.randrange(len(replies)))
+    # (an external action becomes available at the `after_quiet`-th quiescent point; a run that is quiescent with nothing
+    # available is ended by the harness, so the replies are staggered one quiescent point apart)
+    for i, k in enumerate(replies):
+        ext.append({"op": "send", "ty": wty, "k": k, "step": rng.choice([None, None, None, "s02"]),
+                    "after_quiet": i if in_order else rng.randint(0, 3)})
+    for _ in range(rng.randint(0, 3)):
+        ext.insert(rng.randrange(len(ext) + 1),
+                   {"op": "send", "ty": rng.choice([wty, wty, wty, 3, 11, 6]), "k": rng.choice([None, 0, 1, 2, 3, 4, 5] + wanted),
+                    "step": rng.choice([None, None, None, "s02", "s04"]), "after_quiet": rng.randint(0, len(replies) + 1)})
+    if rng.random() < 0.15:
+        ext.append({"op": "snapshot", "after_quiet": rng.randint(0, 4)})
+    return {"steps": steps, "externals": ext}
+
+
 def _retried_wait(rng: random.Random, waiter: dict, own: bool) -> list[dict]:
     """give the waiting step a retry policy and failures around its wait(s) (in place); returns extra steps (a handler).
 
@@ -586,6 +653,8 @@ def gen_spec(rng: random.Random, **kw: Any) -> dict:  # type: ignore[no-redef]
         return gen_collect_retry_spec(rng)
     if kw.get("family") == "handover":
         return gen_handover_spec(rng)
+    if kw.get("family") == "wait_multi":
+        return gen_wait_multi_spec(rng)
     if kw.get("family") == "general" or r < 0.55:
         kw.pop("family", None)
         kw.pop("raise_incomplete", None)
